@@ -800,6 +800,41 @@ class Ctx:
         return Congr(self.Forall(lo, hi, lambda k: z3.And(to_real(L) <= to_real(f(k)), to_real(f(k)) <= to_real(H))),
                      z3.Implies(to_int(lo) <= to_int(hi), z3.And(n * to_real(L) <= S, S <= n * to_real(H))), given)
 
+    def wsum_between(self, lo, hi, w, x, L, H, given=None):
+        """weighted-mean step of a hint chain: from  forall k in [lo,hi): w(k) >= 0 and L <= x(k) <= H  (an obligation)
+        conclude  L*Sum(w) <= Sum(w*x) <= H*Sum(w).  The rule is lemma `weighted_mean_between_min_and_max`."""
+        if self.mode != 'sym':
+            return True
+        W = self.Sum(lo, hi, w)
+        X = self.Sum(lo, hi, lambda k: w(k) * x(k))
+        return Congr(self.Forall(lo, hi, lambda k: z3.And(to_real(w(k)) >= 0, to_real(L) <= to_real(x(k)), to_real(x(k)) <= to_real(H))),
+                     z3.Implies(to_int(lo) <= to_int(hi), z3.And(to_real(L) * W <= X, X <= to_real(H) * W, W >= 0)), given)
+
+    def sum_scale(self, lo, hi, f, a):
+        """Sum(lo,hi, a*f) == a*Sum(lo,hi,f)  (lemma `sum_scaling`); no obligation of its own"""
+        if self.mode != 'sym':
+            return True
+        return Congr(z3.BoolVal(True), self.Sum(lo, hi, lambda k: to_real(a) * to_real(f(k))) == to_real(a) * self.Sum(lo, hi, f))
+
+    def sum_dominates(self, lo, hi, f, k, given=None):
+        """from  forall q in [lo,hi): f(q) >= 0  (obligation) conclude  Sum(lo,hi,f) >= 0  and, for lo <= k < hi,
+        Sum(lo,hi,f) >= f(k)  (lemma `sum_dominates`)"""
+        if self.mode != 'sym':
+            return True
+        S = self.Sum(lo, hi, f)
+        return Congr(self.Forall(lo, hi, lambda q: to_real(f(q)) >= 0),
+                     z3.And(z3.Implies(to_int(lo) <= to_int(hi), S >= 0),
+                            z3.Implies(z3.And(to_int(lo) <= to_int(k), to_int(k) < to_int(hi)), S >= to_real(f(k)))), given)
+
+    def under(self, hyp, goal, consts=()):
+        """a goal (with its lemma chain) proved under an extra hypothesis for arbitrary `consts`:  the statement is
+        forall consts: hyp ==> goal; every lemma of the chain is proved, and used, under hyp"""
+        if self.mode != 'sym':
+            return goal
+        if not isinstance(goal, Hinted):
+            goal = Hinted(goal, [], (), [])
+        return self._guard(hyp, goal, list(consts))
+
     def pure_ground(self, goal, *hyps):
         return Pure(goal, hyps, ground=True) if self.mode == 'sym' else goal
 
